@@ -176,3 +176,42 @@ Section Proofs.
     destruct (Ha k eq_refl) as [Hk _]. rewrite <- Hk. rewrite last_last. reflexivity.
   Qed.
 End Proofs.
+
+(* ---- widening of a CTE's SELECT by its sort columns *)
+Lemma widen_prefix : forall sc sel, exists extra, widen sel sc = sel ++ extra.
+Proof.
+  induction sc as [|c r IH]; intro sel; cbn [widen].
+  - exists []. rewrite app_nil_r. reflexivity.
+  - destruct (existsb (Nat.eqb c) sel).
+    + apply IH.
+    + destruct (IH (sel ++ [c])) as [e He]. exists (c :: e). rewrite He, <- app_assoc. reflexivity.
+Qed.
+
+Lemma widen_keeps : forall sc sel x, In x sel -> In x (widen sel sc).
+Proof. intros sc sel x H. destruct (widen_prefix sc sel) as [e He]. rewrite He. apply in_or_app. left. exact H. Qed.
+
+(* what the widening is for: every sort column is selected afterwards, and nothing selected before moves *)
+Theorem widen_covers : forall sc sel, (forall c, In c sc -> In c (widen sel sc)) /\ exists extra, widen sel sc = sel ++ extra.
+Proof.
+  split; [|apply widen_prefix]. revert sel.
+  induction sc as [|c r IH]; intros sel x Hx; [destruct Hx|].
+  cbn [widen]. destruct Hx as [<-|Hx]; [|apply IH; exact Hx].
+  destruct (existsb (Nat.eqb c) sel) eqn:E.
+  - apply widen_keeps. apply existsb_exists in E. destruct E as [y [Hy Ey]]. apply Nat.eqb_eq in Ey. subst y. exact Hy.
+  - apply widen_keeps. apply in_or_app. right. left. reflexivity.
+Qed.
+
+(* the operands of a set operation keep equal widths when the sort columns are selected already (or in the main query) *)
+Theorem widen_noop : forall sc sel, (forall c, In c sc -> In c sel) -> widen sel sc = sel.
+Proof.
+  induction sc as [|c r IH]; intros sel H; [reflexivity|]. cbn [widen].
+  assert (E : existsb (Nat.eqb c) sel = true).
+  { apply existsb_exists. exists c. split; [apply H; left; reflexivity | apply Nat.eqb_refl]. }
+  rewrite E. apply IH. intros x Hx. apply H. right. exact Hx.
+Qed.
+
+Theorem arity_kept_partial : forall main sel sc, (main = true \/ forall c, In c sc -> In c sel) -> arity_kept main sel sc = true.
+Proof.
+  intros main sel sc [->|H]; unfold arity_kept, select_after; [apply Nat.eqb_refl|].
+  destruct main; [apply Nat.eqb_refl|]. rewrite (widen_noop sc sel H). apply Nat.eqb_refl.
+Qed.
